@@ -473,11 +473,11 @@ def _(I, ctx, r, n):
     l, lo, hi = seq_view(r); k = ctx.concretize(n)
     if k > hi - lo: raise Panic('mid > len')
     return TUPLE(ValRef(SliceV(l, lo, lo + k)), ValRef(SliceV(l, lo + k, hi)))
-@model('re:^(?:core|std|alloc)::slice::<impl \\[.*\\]>::(split_first|split_last)$')
+@model('re:^(?:core|std|alloc)::slice::<impl \\[.*\\]>::(split_first|split_last|split_first_mut|split_last_mut)$')
 def _(I, ctx, r):
     l, lo, hi = seq_view(r)
     if hi == lo: return NONE()
-    if ctx.cur_key.endswith('split_first'): return SOME(TUPLE(ElemRef(l, lo), ValRef(SliceV(l, lo + 1, hi))))
+    if 'split_first' in ctx.cur_key: return SOME(TUPLE(ElemRef(l, lo), ValRef(SliceV(l, lo + 1, hi))))
     return SOME(TUPLE(ElemRef(l, hi - 1), ValRef(SliceV(l, lo, hi - 1))))
 @model('re:^(?:core|std|alloc)::slice::<impl \\[.*\\]>::(ends_with)$')
 def _(I, ctx, r, p):
@@ -737,8 +737,6 @@ def _(I, ctx, r, d): return r.fields[0] if r.variant == 'Ok' else d
 def _(I, ctx, r, f): return r.fields[0] if r.variant == 'Ok' else I.call_value(ctx, ctx.cur_crate, f, [r.fields[0]])
 @model('re:^(std::result::)?Result::(and_then)$')
 def _(I, ctx, r, f): return I.call_value(ctx, ctx.cur_crate, f, [r.fields[0]]) if r.variant == 'Ok' else r
-@model('re:^(std::result::)?Result::(ok_or|as_ref)$')
-def _(I, ctx, r): raise Unsupported(ctx.cur_key)
 @model('core::str::<impl str>::parse')
 def _(I, ctx, r):
     raw = ctx.cur_raw
@@ -1162,5 +1160,134 @@ def _(I, ctx, it, f):
 def _(I, ctx, it, *a):
     if ctx.cur_key.endswith(('fuse', 'by_ref')): return it if ctx.cur_key.endswith('by_ref') else to_iter(I, ctx, it)
     raise Unsupported(ctx.cur_key)
-@model('re:^<.* as (std::iter::)?Iterator>::(try_fold|try_for_each|reduce|unzip|partition|min_by_key|max_by_key|min_by|max_by|rposition|last_mut)$')
+@model('re:^<.* as (std::iter::)?Iterator>::partition$')
+def _(I, ctx, it, f):
+    yes, no = [], []
+    for x in _drain(I, ctx, it):
+        (yes if ctx.branch(I.call_value(ctx, ctx.cur_crate, f, [ValRef(x)])) else no).append(x)
+    return TUPLE(VecV(yes), VecV(no))
+@model('re:^<.* as (std::iter::)?Iterator>::unzip$')
+def _(I, ctx, it):
+    xs = _drain(I, ctx, it)
+    return TUPLE(VecV([x.fields[0] for x in xs]), VecV([x.fields[1] for x in xs]))
+@model('re:^<.* as (std::iter::)?Iterator>::reduce$')
+def _(I, ctx, it, f):
+    xs = _drain(I, ctx, it)
+    if not xs: return NONE()
+    acc = xs[0]
+    for x in xs[1:]: acc = I.call_value(ctx, ctx.cur_crate, f, [acc, x])
+    return SOME(acc)
+@model('re:^<.* as (std::iter::)?Iterator>::(min_by_key|max_by_key)$')
+def _(I, ctx, it, f):
+    xs = _drain(I, ctx, it)
+    if not xs: return NONE()
+    mx = ctx.cur_key.endswith('max_by_key')
+    best = xs[0]; bk = I.call_value(ctx, ctx.cur_crate, f, [ValRef(best)])
+    for x in xs[1:]:
+        k = I.call_value(ctx, ctx.cur_crate, f, [ValRef(x)])
+        c = cmp_values(I, ctx, k, bk)
+        if (mx and c >= 0) or (not mx and c < 0): best, bk = x, k
+    return SOME(best)
+@model('re:^<.* as (std::iter::)?Iterator>::(min_by|max_by)$')
+def _(I, ctx, it, f):
+    xs = _drain(I, ctx, it)
+    if not xs: return NONE()
+    mx = ctx.cur_key.endswith('max_by'); best = xs[0]
+    for x in xs[1:]:
+        o = I.call_value(ctx, ctx.cur_crate, f, [ValRef(x), ValRef(best)]).variant
+        if (mx and o != 'Less') or (not mx and o == 'Less'): best = x
+    return SOME(best)
+@model('re:^<.* as (std::iter::)?Iterator>::(try_fold|try_for_each|rposition|last_mut)$')
 def _(I, ctx, *a): raise Unsupported('iterator adaptor ' + ctx.cur_key)
+
+
+# ------------------------------------------------------------------ pinned_vec::PinnedVec (append-only, stable addresses) as a list
+@model('re:^(pinned_vec::)?PinnedVec::(new|default)$', 're:^<(pinned_vec::)?PinnedVec<.*> as Default>::default$')
+def _(I, ctx): return VecV([])
+@model('re:^(pinned_vec::)?PinnedVec::len$')
+def _(I, ctx, r): return BV(len(deref(r).items), 64)
+@model('re:^(pinned_vec::)?PinnedVec::is_empty$')
+def _(I, ctx, r): return len(deref(r).items) == 0
+@model('re:^(pinned_vec::)?PinnedVec::push$')
+def _(I, ctx, r, v): deref(r).items.append(v); return UNIT
+@model('re:^(pinned_vec::)?PinnedVec::(get|get_mut)$')
+def _(I, ctx, r, idx):
+    v = deref(r); n = len(v.items)
+    if ctx.branch((idx.e < n) if idx.conc() else z3.ULT(idx.z(), n)): return SOME(ElemRef(v.items, ctx.concretize(idx)))
+    return NONE()
+@model('re:^(std|core)::pin::Pin::(into_inner|get_ref|get_mut|into_ref|new|new_unchecked|get_unchecked_mut|as_ref|as_mut)$', 're:^Pin::(into_inner|get_ref|get_mut|new|new_unchecked|get_unchecked_mut)$')
+def _(I, ctx, v): return v
+@model('std::mem::transmute', 'core::mem::transmute', 'std::intrinsics::transmute', 'core::intrinsics::transmute', 'transmute')
+def _(I, ctx, v): return v
+
+
+@model('re:^(std::cell::)?(RefCell|Cell|UnsafeCell)::(as_ptr|get_mut|get)$')
+def _(I, ctx, r):
+    if ctx.cur_key.endswith('Cell::get') and not ctx.cur_key.endswith(('RefCell::get', 'UnsafeCell::get')): return copy_value(deref(r).fields[0])
+    return FieldRef(deref(r), 0)
+@model('re:^(std::cell::)?(RefCell|Cell|UnsafeCell)::into_inner$', 're:^([\\w:]+::)?(RwLock|Mutex)::into_inner$')
+def _(I, ctx, c): return c.fields[0]
+
+
+@model('std::io::_eprint', 'std::io::_print', 're:^std::io::(_eprint|_print|stdio::_eprint|stdio::_print)$')
+def _(I, ctx, *a): return UNIT
+
+
+@model('re:^(std::collections::hash_map::)?VacantEntry::(key|into_key)$')
+def _(I, ctx, e):
+    e0 = deref(e); return ValRef(e0.fields[1]) if ctx.cur_key.endswith('::key') else e0.fields[1]
+@model('re:^(std::collections::hash_map::)?OccupiedEntry::key$')
+def _(I, ctx, e):
+    e0 = deref(e); return ElemRef(e0.fields[0].keys, e0.fields[1])
+@model('re:^(std::collections::hash_map::)?Entry::(key)$')
+def _(I, ctx, e):
+    e0 = deref(e)
+    return ElemRef(e0.fields[0].fields[0].keys, e0.fields[0].fields[1]) if e0.variant == 'Occupied' else ValRef(e0.fields[0].fields[1])
+@model('re:^(std::collections::hash_map::)?Entry::(and_modify)$')
+def _(I, ctx, e, f):
+    if e.variant == 'Occupied': I.call_value(ctx, ctx.cur_crate, f, [ElemRef(e.fields[0].fields[0].vals, e.fields[0].fields[1])])
+    return e
+
+
+@model('re:^<(std::collections::)?(Fnv)?HashMap<.*> as (std::ops::)?Index<.*>>::index$')
+def _(I, ctx, m, k):
+    m0 = deref(m); i = m0.find(I, ctx, deref(k))
+    if i is None: raise Panic('HashMap index: key not found')
+    return ElemRef(m0.vals, i)
+
+
+@model('re:^(std::rc::|std::sync::)?(Rc|Arc)::(try_unwrap|into_inner)$')
+def _(I, ctx, v): return OK(v) if ctx.cur_key.endswith('try_unwrap') else SOME(v)     # reference counts are not tracked: assumed unique
+@model('re:^(std::rc::|std::sync::)?(Rc|Arc)::ptr_eq$')
+def _(I, ctx, a, b): return deref(a) is deref(b)
+@model('re:^(std::rc::|std::sync::)?(Rc|Arc)::(get_mut|make_mut)$')
+def _(I, ctx, r): return SOME(r) if ctx.cur_key.endswith('get_mut') else r
+@model('re:^(std::rc::|std::sync::)?(Rc|Arc)::(strong_count|weak_count)$')
+def _(I, ctx, r): raise Unsupported('reference counts are not tracked')
+
+
+@model('read_volatile', 'std::ptr::read_volatile', 'core::ptr::read_volatile', 'std::ptr::read', 'core::ptr::read')
+def _(I, ctx, p): return deref1(p)
+@model('std::ptr::write', 'core::ptr::write', 'std::ptr::write_volatile')
+def _(I, ctx, p, v): p.set(v); return UNIT
+@model('re:^(std|core)::ptr::(null|null_mut)$')
+def _(I, ctx): return Agg('NullPtr', [])
+@model('re:^(std|core)::ptr::eq$')
+def _(I, ctx, a, b): return deref(a) is deref(b)
+
+
+# ------------------------------------------------------------------ rayon: a parallel iterator is run sequentially in item order (one schedule)
+@model('re:^<.* as (rayon::iter::)?IntoParallelRefIterator>::par_iter$', 're:^<.* as (rayon::iter::)?IntoParallelRefMutIterator>::par_iter_mut$')
+def _(I, ctx, r):
+    l, lo, hi = seq_view(r)
+    return ListIt([ElemRef(l, k) for k in range(lo, hi)])
+@model('re:^<.* as (rayon::iter::)?IntoParallelIterator>::into_par_iter$')
+def _(I, ctx, v): return to_iter(I, ctx, v)
+@model('re:^<.* as (rayon::iter::)?ParallelIterator>::for_each$')
+def _(I, ctx, it, f):
+    for x in _drain(I, ctx, it): I.call_value(ctx, ctx.cur_crate, f, [x])
+    return UNIT
+@model('re:^<.* as (rayon::iter::)?ParallelIterator>::(map)$')
+def _(I, ctx, it, f): return MapIt(to_iter(I, ctx, it), f)
+@model('re:^<.* as (rayon::iter::)?ParallelIterator>::(collect)$')
+def _(I, ctx, it): return VecV(_drain(I, ctx, it))
